@@ -94,9 +94,9 @@ pub fn expect(bytes: &[u8], enc: Enc, limit: usize, prost: bool) -> Expect {
 
 pub fn run(cfg: &RunCfg) -> Ctx {
     let mut all = Ctx::new();
-    all.merge(par_cases(cfg, "decode", cfg.n(80_000, 16 * 150_000), || (), |_, rng, ctx, _| case(rng, ctx, None)));
+    all.merge(par_cases(cfg, "decode", cfg.n(80_000, 16 * 900_000), || (), |_, rng, ctx, _| case(rng, ctx, None)));
     // truncation at every byte of small streams
-    all.merge(par_cases(cfg, "truncate-all", cfg.n(120, 600), || (), |_, rng, ctx, _| trunc_all(rng, ctx)));
+    all.merge(par_cases(cfg, "truncate-all", cfg.n(120, 3000), || (), |_, rng, ctx, _| trunc_all(rng, ctx)));
     for m in MUTATIONS {
         all.floor(&format!("mut.{}", m), 3);
     }
